@@ -197,6 +197,15 @@ def correspond(ctx, scale=1):
             av, bvv = a_.split(), b_.split()
             j = next((i for i in range(min(len(av), len(bvv))) if av[i] != bvv[i]), min(len(av), len(bvv)))
             mm.append({"key": "kernel-bytes", "what": "sieve bytes of Erat(%d, %d, %d KiB): byte %d is %s in the implementation, %s in the model kernel (%d vs %d bytes)" % (c[0], c[1], c[2], j, av[j:j + 1], bvv[j:j + 1], len(av), len(bvv)), "failing_input": None})
+    # ... and the same runs decoded word by word by the model (pad8, decode_array with the De Bruijn nextPrime): the list of primes
+    rcm, om, em = ps.run([model], input="".join("LEAF kprint %s %d %d %d\n" % (l1s[0], c[2], c[0], c[1]) for c in kb_cases), timeout=900)
+    om3 = om.split("\n")
+    for idx, c in enumerate(kb_cases):
+        ev += 1
+        want = " ".join(str(p_) for p_ in oracle.segment_primes(c[0], c[1]))
+        got = om3[idx].strip() if idx < len(om3) else "?"
+        if got != want:
+            mm.append({"key": "kernel-model", "what": "the model's decoded output for [%d, %d] is %s..., the oracle %s..." % (c[0], c[1], got[:80], want[:80]), "failing_input": None})
     # the self-contained model kernel (erat_self: recursion for the sieving primes, model-side decoding) on small intervals: the whole list
     es = [(7, 5000, 16), (1000, 9000, 17), (7, 20000, 32), (7, 7, 16), (9000, 9000 + rng.below(3000), 16), (rng.between(7, 3000), 12000, 23)]
     rcm, om, em = ps.run([model], input="".join("LEAF eratself %s %d %d %d\n" % (l1s[0], c[2], c[0], c[1]) for c in es), timeout=900)
